@@ -27,6 +27,20 @@ def pda_cases(q, g, k, tmin, tmax, nin=2):
                 yield (q, g, sub, fi)
 
 
+def same_long_push_cases():
+    """one state, stack {Z,X}: two different transitions that push the same word of length 3, plus one transition
+    with a push of <= 1 symbol (so that something can be popped); any final set"""
+    heads = [(a, X) for a in range(3) for X in range(2)]
+    small = [t for t in candidates(1, 2, 1)]
+    for gamma in product(range(2), repeat=3):
+        for h1, h2 in combinations(heads, 2):
+            for extra in small:
+                trans = tuple(sorted({(0, h1[0], h1[1], 0, gamma), (0, h2[0], h2[1], 0, gamma), extra}))
+                if len(trans) == 3:
+                    for fi in range(2):
+                        yield (1, 2, trans, fi)
+
+
 def is_rep(case):
     """minimal under swapping the two input letters"""
     q, g, trans, fi = case
